@@ -25,6 +25,7 @@ import Bermuda.Lemmas.ResampleBoot
 import Bermuda.Lemmas.ResampleCW
 import Bermuda.Lemmas.ResampleChain
 import Bermuda.Lemmas.ResampleRows
+import Bermuda.Lemmas.ResampleMulti
 namespace Bermuda.Properties.C17
 open Bermuda Bermuda.Resample
 
@@ -802,7 +803,8 @@ theorem spec_chain_replicate_layout {s rep : List Cell} {fields : List String} {
 
 /-- **spec_chain_bootstrapD_single.** On a triangle with ONE slice the summed replicate of `bootstrapD` is the
 slice's replicate, so `Spec.C17.chainOkSlice` — the verdict `chain` of the driver — is true of every replicate of
-the model's `bootstrapD` output (age-to-age route, any index draws). Several slices: see notes (declared). -/
+the model's `bootstrapD` output (age-to-age route, any index draws). Several slices:
+`spec_chain_bootstrapD_slices`. -/
 theorem spec_chain_bootstrapD_single {t : List Cell} {n : Int} {field : Option (List String)}
     {D : Nat → Nat → Draws} {reps : List (List Cell)} (h : bootstrapD t n field D = .ok reps)
     (hne : t ≠ []) (hu : useAtas t = true) (hk : kindsConsistent t = true) (H : SliceLayout t)
@@ -813,6 +815,49 @@ theorem spec_chain_bootstrapD_single {t : List Cell} {n : Int} {field : Option (
   obtain ⟨c0, hc0⟩ := List.exists_mem_of_ne_nil t hne
   have hm : ∀ c ∈ t, c.md = c0.md := fun c hc => H.oneMd c hc c0 hc0
   exact spec_chain_replicate_layout (bootstrapD_single h hne hm H.sorted i hi) hu hk H hwf
+
+/-- **spec_chain_bootstrapD_slices.** The lift of `spec_chain_bootstrapD_single` to a triangle with ANY number of
+slices: for every slice `s` (the `k`-th of `Triangle.slices t`) routed to the age-to-age method and well formed
+(`SliceLayout s`, distinct field names per cell), `Spec.C17.chainOkSlice` — the verdict `chain` of the driver, which
+it evaluates per slice against the WHOLE replicate — is true of every replicate `reps[i]` of the model's `bootstrapD`,
+with the draws `D k i` of that slice. Beyond the single-slice hypotheses only `TagInjective t i` is needed (the tag
+`bootstrap = i` does not merge two slices — the hypothesis `spec_bootstrap_structure` already has): `repCell` filters
+by the tagged metadata, so in the summed replicate it only sees the `k`-th slice's own replicate
+(`bootstrapD_slice_repCell`). -/
+theorem spec_chain_bootstrapD_slices {t : List Cell} {n : Int} {field : Option (List String)}
+    {D : Nat → Nat → Draws} {reps : List (List Cell)} (h : bootstrapD t n field D = .ok reps)
+    (hk : kindsConsistent t = true) (hinj : ∀ i, TagInjective t i) :
+    ∀ k (hks : k < ((Triangle.slices t).map (·.2)).length),
+      useAtas ((Triangle.slices t).map (·.2))[k] = true → SliceLayout ((Triangle.slices t).map (·.2))[k] →
+      (∀ c ∈ ((Triangle.slices t).map (·.2))[k], c.values.keys.Nodup) →
+      ∀ i (hi : i < reps.length),
+        Spec.C17.chainOkSlice ((Triangle.slices t).map (·.2))[k] reps[i] i
+          (field.getD (fieldsOf ((Triangle.slices t).map (·.2))[k])) (D k i).I = true := by
+  intro k hks hu H hwf i hi
+  obtain ⟨rep, hrep, hcell⟩ := bootstrapD_slice_repCell h hk hinj k hks i hi
+  rw [chainOkSlice_congr hcell]
+  exact spec_chain_replicate_layout hrep hu (slice_props hk _ (List.getElem_mem hks)).1 H hwf
+
+/-- **spec_ata_membership_partial.** The membership half of `Spec.C17.ataMembershipOk` at the level of the MODEL's
+tables: for ANY index draws `I`, every factor the chain clause multiplies with (`Spec.C17.factorAt F lag f pidx`,
+`F` the resampled table — the factor `spec_chain_bootstrapD_slices` / `chainCellOk` speaks about) is a MEMBER of the
+model's empirical column `ataTable s fields` for that lag and field: nothing but an observed age-to-age factor of
+that lag is ever used. MISSING for the bridge to `ataMembershipOk` itself (declared): that the model's column
+`ataTable[lag][f]` (clip to two consecutive lags of `sortedLags`, consecutive cells of one period, `safeAtaDiv`) is
+contained in the Spec's independent `ratios s prev.devLag lag f` (per period `find?` by lag, `safeDiv`) — it needs
+that the row predecessor's lag IS the preceding lag of `sortedLags s` (a triangle without skipped lags), uniqueness
+of (period, lag) in the slice, and `sliceOf t c` = the `k`-th slice. -/
+theorem spec_ata_membership_partial {s : List Cell} {fields : List String} {I : IdxTable} {F : Factors}
+    (hF : resampledAtas s fields I = .ok F) {lag : Rat} {f : String} {pidx : Nat} {r : Rat}
+    (h : Spec.C17.factorAt F lag f pidx = some r) :
+    ∃ A tbl col, ataTable s fields = .ok A ∧ (lag, tbl) ∈ A ∧ (f, col) ∈ tbl ∧ r ∈ col :=
+  resampledAtas_member hF h
+
+/-- non-vacuity on the closed instance: the factor period 0 multiplies with at lag 12 is 2, a member of `[3/2, 2]` -/
+example : Spec.C17.factorAt exF 12 "paid_loss" 0 = some 2 ∧
+    resampledAtas exSquare ["paid_loss"] (exDraws 0 0).I = .ok exF ∧
+    ataTable exSquare ["paid_loss"] = .ok [(12, [("paid_loss", [3 / 2, 2])])] :=
+  ⟨by decide +kernel, ex_sq_res, ex_sq_table⟩
 
 /-- **dev_lag_strict_mono.** The development lag in months is strictly increasing in the evaluation date (valid
 calendar dates, any period end): within a period, sorting by evaluation date is sorting by lag — the fact behind
@@ -860,10 +905,29 @@ theorem variance_nonneg (d : List Rat) : 0 ≤ varQ d := varQ_nonneg d
 /-! ### 10. non-vacuity: closed instances on which the operations SUCCEED in the model
 
 (`decide` cannot evaluate `List.mergeSort`; the sorts are discharged with `List.mergeSort_of_pairwise` /
-`ofCells_of_sorted` on inputs that are already in order. A closed instance of the whole `bootstrap` would need
-the same staging at eight sort sites (`Triangle.slices`, `Triangle.metadata`, `periodsOf`, `sortedLags`,
-`fieldsOf`, three `ofCells`) and is NOT given: its success is evidenced by the driver, evidence counters
-`bootstrap/ok`.) -/
+`ofCells_of_sorted` on inputs that are already in order. For the whole `bootstrapD` this is staged over its sort
+sites in `Lemmas/ResampleMulti.lean` (`ex_sq_*`).) -/
+
+/-- **bootstrapD_ok_instance.** Closed, kernel-checked instance: the model's bootstrap SUCCEEDS on the 2 × 2
+age-to-age square `exSquare` (periods 2020, 2021; lags 0, 12; paid 100 → 150 and 80 → 160, empirical factors
+`[3/2, 2]`) with `n = 1` and the index draws `[1, 0]` (the periods swap factors): the one replicate is the tagged
+square with 100 → 200 and 80 → 120. -/
+theorem bootstrapD_ok_instance : bootstrapD exSquare 1 none exDraws = .ok [exDev.map (tagCell 0)] := by
+  have h1 : ¬ ((1 : Int) ≤ 0) := by decide
+  simp only [bootstrapD, h1, if_false, ex_sq_slices, List.zipIdx_cons, List.zipIdx_nil, mapMExcept, bootstrapSliceD,
+    Option.getD_none, ex_sq_fields, Int.toNat_one, List.range_one, ex_sq_rep, List.isEmpty_cons, Bool.false_eq_true,
+    List.map_cons, List.map_nil, List.getD_cons_zero, sumTriangles, sumFrom]
+
+/-- … so the hypothesis `bootstrapD … = .ok reps` of the bridges is satisfiable -/
+theorem bootstrapD_ok_exists : ∃ reps, bootstrapD exSquare 1 none exDraws = .ok reps := ⟨_, bootstrapD_ok_instance⟩
+
+/-- the chain bridge applies to it, all hypotheses discharged: the verdict `chain` is true of the closed replicate -/
+example : Spec.C17.chainOkSlice exSquare (exDev.map (tagCell 0)) 0 ["paid_loss"] (exDraws 0 0).I = true := by
+  have H : SliceLayout exSquare :=
+    ⟨ex_sq_sorted, by decide +kernel, by decide +kernel, by decide +kernel⟩
+  have h := spec_chain_bootstrapD_single bootstrapD_ok_instance (by decide) ex_sq_use ex_sq_kinds H
+    (by decide +kernel) 0 (by simp)
+  simpa [ex_sq_fields] using h
 
 /-- closed instance: `thin` SUCCEEDS with a valid draw (k = 2 of n = 3, positions 2 and 0) -/
 example : thin exSamples 2 [2, 0] = .ok (.fresh (exSamples.map (thinCell [2, 0]))) := by
